@@ -11,7 +11,7 @@ order = []
 if os.path.exists(kf):
     for l in open(kf):
         if l.strip():
-            j = json.loads(l); have[(j["status"], j["signature"])] = j; order.append((j["status"], j["signature"]))
+            j = json.loads(l); key = (j["status"], j.get("signature", j.get("commit", ""))); have[key] = j; order.append(key)
 added = 0
 unrev = {}
 for f in sys.argv[1:]:
